@@ -41,6 +41,9 @@ Refuted on the unchanged tree (genuine, replayed on the real code through public
   falcon.util.reader:BufferedReader._read#invariant-buffer-pos-within-buffer
       source shorter than max_stream_len: BufferedReader(io.BytesIO(b'').read, 1, 2).read() leaves _buffer_pos == 1 > _buffer_len == 0;
       BufferedReader(io.BytesIO(b'a').read, 10, 4): read(3); sub = delimit(b'--'); sub.read_until(b'abc') never returns.
+      Also with an exact declared length, through a delimited sub-reader (its declared length is the parent's whole remainder):
+      r = BufferedReader(io.BytesIO(b'a\\nbbbb').read, 6, 4); c = r.delimit(b'\\n'); c.read(3) -> b'a' with c._buffer_pos == 3 > c._buffer_len == 1;
+      c.delimit(b'--').read_until(b'abc') never returns (found by the bounded stand-in).
   falcon.asgi.reader:BufferedReader._iter_delimited#yielded-bytes-are-consumed
       delimiter never found before the source ends: the final `yield self._buffer` does not consume it -- read_until(d) and a
       following read() both return the bytes, tell() lags.
@@ -3138,7 +3141,11 @@ def async_chunkings_all(data, mode):
     for comp in compositions(len(data)):
         pieces = split(data, comp)
         out.append(pieces)
-        if mode != 'exact' or len(comp) <= 2 or len(comp) == len(data):
+        if (
+            mode in ('full', 'reduced')
+            or (mode == 'exact' and (len(comp) <= 2 or len(comp) == len(data)))
+            or (mode == 'min' and (len(comp) == 1 or len(comp) == len(data)))
+        ):
             out.append(with_gaps(pieces))
         if single_empties:
             for j in range(len(pieces) + 1):
@@ -3278,7 +3285,7 @@ def unit_seeds(runner, kind):
 
 
 def unit_a(runner, kind, data, cs, hist, mode, multibyte_only):
-    # mode: 'full' | 'reduced' | 'exact' | 'inexact' (see A_MODES)
+    # mode: 'full' | 'reduced' | 'exact' | 'min' | 'inexact' (see A_MODES)
     n = len(data)
     if kind == 'async':
         if mode == 'inexact':
@@ -3287,7 +3294,7 @@ def unit_a(runner, kind, data, cs, hist, mode, multibyte_only):
     else:
         cfgs = []
         for ml in max_len_variants(n):
-            if (mode == 'exact' and ml != n) or (mode == 'inexact' and ml == n):
+            if (mode in ('exact', 'min') and ml != n) or (mode == 'inexact' and ml == n):
                 continue
             for ch in sync_chunkings_all(n):
                 if mode == 'full' or ml == n or len(ch[0]) <= 2:
@@ -3390,9 +3397,9 @@ TIERS = {
     # c: (number of random long histories per reader, max data len)
     'quick': {'a': [(0, 3, 2, 'full', False), (4, 4, 2, 'exact', True), (4, 4, 1, 'inexact', False)], 'b': (5, 7, 1), 'c': (150000, 7)},
     'thorough': {
-        'a': [(0, 3, 3, 'full', False), (4, 4, 3, 'exact', False), (4, 4, 2, 'inexact', False), (5, 5, 2, 'reduced', False)],
-        'b': (5, 9, 2),
-        'c': (2000000, 9),
+        'a': [(0, 3, 3, 'full', False), (4, 4, 3, 'min', True), (4, 4, 2, 'inexact', False), (5, 5, 2, 'exact', True), (5, 5, 1, 'inexact', False)],
+        'b': (5, 9, 1),
+        'c': (1500000, 9),
     },
 }
 C_BLOCK = 2500
@@ -3403,6 +3410,8 @@ A_MODES = {
         'reduced': 'every composition of the data into non-empty consecutive chunks, each also with an empty chunk in every gap (front, between, end)',
         'exact': 'every composition of the data into non-empty consecutive chunks; the compositions with <= 2 parts and the all-1-byte one also '
         'with an empty chunk in every gap (front, between, end)',
+        'min': 'every composition of the data into non-empty consecutive chunks; the one-chunk and the all-1-byte one also with an empty chunk in '
+        'every gap (front, between, end)',
         'inexact': None,
     },
     'sync': {
@@ -3411,6 +3420,7 @@ A_MODES = {
         'reduced': 'declared max_stream_len = len x every composition of the source length as per-call short-read caps (includes always-full) plus '
         'always-1-byte, and max_stream_len in {len+3, max(len-2,0)} x the compositions with <= 2 parts plus always-1-byte',
         'exact': 'declared max_stream_len = len x every composition of the source length as per-call short-read caps (includes always-full) plus always-1-byte',
+        'min': 'declared max_stream_len = len x every composition of the source length as per-call short-read caps (includes always-full) plus always-1-byte',
         'inexact': 'declared max_stream_len in {len+3 (short source), max(len-2,0)} x the compositions of the source length with <= 2 parts plus always-1-byte',
     },
 }
@@ -3449,7 +3459,7 @@ def all_data_range(lo, hi):
 def unit_cost(u):
     if u[0] == 'a':
         n = len(u[2])
-        return (2 ** n) * (25 ** u[4]) * u[3] * ({'full': 3, 'reduced': 2, 'exact': 1, 'inexact': 1}[u[5]] if u[1] == 'sync' else 2)
+        return (2 ** n) * (25 ** u[4]) * u[3] * ({'full': 3, 'reduced': 2, 'exact': 1, 'min': 1, 'inexact': 1}[u[5]] if u[1] == 'sync' else 2)
     if u[0] == 'b':
         return 100 * len(u[2]) * u[3]
     if u[0] == 'c':
